@@ -14,6 +14,7 @@ ID = "C07"
 LEVEL = "exploration"
 TECHNIQUE = ('deterministic simulation with the reframe fault: row sequence re-cut into frames by tape decisions (rows sliced, never re-encoded), flat and grouped real parsers; grouped writes through one shared stream')
 LEVEL_NOTE = ('sampled streams and partitions')
+OPTIMIZED_EVERY = 25      # every 25th run is executed in a child interpreter started with python -O
 RUNS = {"quick": 40000, "thorough": 800000}
 RULE = ("(reframe) the row sequence of a valid stream (real writer / reference encoder) is re-cut into frames at "
         "tape-chosen points with empty and metadata-bearing frames inserted, then parsed flat and grouped; (grouped "
